@@ -13,6 +13,7 @@ import (
 	"github.com/plgd-dev/go-coap/v3/udp/server"
 
 	"verif/vrt"
+	_ "verif/worlds/track" // C12 builds: every world runs under the pool lifecycle tracker
 )
 
 type udpOpt func(cfg *server.Config)
@@ -33,14 +34,15 @@ type UDP struct {
 }
 
 type UDPOpts struct {
-	Handler    server.HandlerFunc
-	Monitor    func() client.InactivityMonitor
-	MaxMsgSize uint32
-	OnNewConn  func(cc *client.Conn)
-	BlockWise  bool
-	Extra      []server.Option // real options (e.g. options.WithInactivityMonitor) applied after the harness defaults
-	QueueSize  int             // ReceivedMessageQueueSize of the per-peer connections (0 = library default)
-	Wildcard   bool            // bind the listener to 0.0.0.0 (destination addresses then come from control messages)
+	Handler      server.HandlerFunc
+	Monitor      func() client.InactivityMonitor
+	MaxMsgSize   uint32
+	OnNewConn    func(cc *client.Conn)
+	BlockWise    bool
+	Extra        []server.Option // real options (e.g. options.WithInactivityMonitor) applied after the harness defaults
+	Transmission *Transmission
+	QueueSize    int  // ReceivedMessageQueueSize of the per-peer connections (0 = library default)
+	Wildcard     bool // bind the listener to 0.0.0.0 (destination addresses then come from control messages)
 }
 
 // NewUDP builds the server and starts Serve in a library thread (call from a managed thread).
@@ -66,6 +68,9 @@ func NewUDP(o UDPOpts) *UDP {
 		cfg.GetToken = func() (message.Token, error) { tok++; return message.Token{0xdd, tok}, nil }
 		cfg.BlockwiseEnable = o.BlockWise
 		cfg.TransmissionMaxRetransmit = 1
+		if o.Transmission != nil {
+			cfg.TransmissionNStart, cfg.TransmissionAcknowledgeTimeout, cfg.TransmissionMaxRetransmit = o.Transmission.NStart, o.Transmission.AckTimeout, o.Transmission.MaxRetransmit
+		}
 		if o.MaxMsgSize != 0 {
 			cfg.MaxMessageSize = o.MaxMsgSize
 		}
